@@ -180,9 +180,14 @@ package transport
 //@   site handleUDPAddr#0 assert [C07] objof(pkg) != objof(buffer)
 //@   safety [C05]
 //
+// Send (C09): with a positive write timeout the enqueue into the per-connection send queue is offered together
+// with a timer channel (the select's first case is a real channel, not nil), so a full queue cannot hold a call
+// beyond the write timeout. Callers keep seeing Send as an effect-free step on their own state (noframe is not
+// needed: nothing of the caller is reachable from here except through tc).
 //@ func (*TarsClient).Send
-//@   trusted
+//@   requires tc != nil && tc.config != nil
 //@   allocates
+//@   site select#0 assert [C09] tc.config.WriteTimeout > 0 ==> $ch0 != nil
 
 // NewTarsClient (C08): every adapter gets a transport client of its own, bound to the protocol object (the adapter
 // whose Recv is handed the replies of this connection) that was passed in - replies can only reach the pending
